@@ -105,6 +105,8 @@ def first_diff(a, b, path=''):
 def check_spec(spec, layout_names):
     lay = malprint.layouts(spec)
     for ln in layout_names:
+        if ln not in lay:
+            continue        # layout not applicable to this specification (e.g. no category with two assets)
         try:
             got = compile_layout(lay[ln])
         except Exception as e:
@@ -115,7 +117,7 @@ def check_spec(spec, layout_names):
     return ''
 
 
-LAYOUTS = ['single', 'assets_included', 'assocs_included', 'include_twice', 'nested']
+LAYOUTS = ['single', 'assets_included', 'assocs_included', 'include_twice', 'nested', 'category_split_over_include', 'category_reopened']
 
 
 def body_prog(cube, **kw):
@@ -265,8 +267,9 @@ def queries(tier):
                                'ttc': '%d TTC expressions: distributions with 0-2 arguments, left-associative chains of 3-4 terms/factors with mixed operators, '
                                       'parenthesised sub-expressions, ^, INT and FLOAT literals' % len(TTCS),
                                'mult': 'all pairs of %d multiplicity forms %s, association meta' % (len(MULTS), MULTS),
-                               'asset': 'abstract, asset/category meta, two categories, no associations, extra define x 5 source layouts (single file, assets included, '
-                                        'associations included, include repeated twice, nested includes)'}[name]))
+                               'asset': 'abstract, asset/category meta, two categories, no associations, extra define x 7 source layouts (single file, assets included, '
+                                        'associations included, include repeated twice, nested includes, one category split over an included file and the including file, '
+                                        'one category reopened in the same file)'}[name]))
     ps = [B('ls'), I('l1', 0, 9), B('l2'), I('l3', 0, 9), B('rs'), I('r1', 0, 9), B('r2'), I('r3', 0, 9),
           B('lnone'), B('ms'), I('m1', 0, 9), B('rnone'), B('ns'), I('n1', 0, 9)]
     qs.append(Query(name='multsym', body=body_mult, params=ps, timeout=900 if tier == 'quick' else 1700, split=['ls', 'rs', 'lnone', 'rnone'],
